@@ -1330,3 +1330,105 @@ def value_at(func, graph, node, expr, depth=0):
             return expr
     return value_at(func, graph, dnode, val, depth + 1) \
         if isinstance(val, ast.Name) else val
+
+
+_FS_MUTATORS = {
+    'os.symlink': 1, 'os.link': 1, 'os.rename': None, 'os.replace': None,
+    'os.unlink': 0, 'os.remove': 0, 'os.rmdir': 0, 'os.mkdir': 0,
+    'os.makedirs': 0, 'shutil.rmtree': 0, 'shutil.move': None,
+    'shutil.copy': 1, 'shutil.copyfile': 1, 'fs.symlink_safe': 0,
+    'fs.rm_safe': 0, 'fs.rmtree_safe': 0, 'fs.write_safe': 0,
+    'fs.replace': None, 'fs.mkdir_safe': 0, 'io.open': 0, 'open': 0,
+    'fs.mkfile_safe': 0, 'fs.link_safe': 1,
+}
+
+
+def fs_mutations(index, attr):
+    """Whole-package list of (func, call, api) where a file-system mutating
+    call is applied to a path whose (copy-propagated) text reads the
+    environment directory attribute ``attr`` (e.g. 'running_dir').  Opening
+    a file counts only in a writing mode."""
+    index.load_all()
+    out = []
+    for mod in index.modules.values():
+        if '.tests' in mod.name or attr not in mod.source:
+            continue
+        for func in mod.live_functions():
+            for sub in walk_no_nested(func.node):
+                if not isinstance(sub, ast.Call):
+                    continue
+                api = callee_text(sub)
+                if api not in _FS_MUTATORS:
+                    continue
+                which = _FS_MUTATORS[api]
+                args = list(sub.args) if which is None else (
+                    sub.args[which:which + 1])
+                if api in ('io.open', 'open'):
+                    mode = sub.args[1] if len(sub.args) > 1 else \
+                        kwarg(sub, 'mode')
+                    if not (isinstance(mode, ast.Constant) and any(
+                            ch in str(mode.value) for ch in 'wax+')):
+                        continue
+                texts = [rtxt(func, a) for a in args]
+                if any(('.%s' % attr) in t or t == attr for t in texts):
+                    out.append((func, sub, api))
+    return out
+
+
+def owner_clause(ctx, rule, attr, owners, what, minimum=1, ignore=None):
+    """OWNER over the whole package: the directory ``attr`` of the node
+    environment is changed only by the listed (module, class) owners.
+    ``owners`` maps (module, class|'*') to None (any mutation) or to the set
+    of APIs that owner may use; ``ignore(func, call)`` drops sites that are
+    about another object with an attribute of the same name."""
+    hits = fs_mutations(ctx.index, attr)
+    inside = 0
+    for func, call, api in hits:
+        if ignore is not None and ignore(func, call):
+            continue
+        owner = (func.module.name, func.cls.name if func.cls else None)
+        if owner not in owners and (owner[0], '*') in owners:
+            owner = (owner[0], '*')
+        ok = owner in owners and (owners[owner] is None or
+                                  api in owners[owner])
+        inside += ok
+        ctx.ob(rule, func, call, ok,
+               '%s is changed only by %s (%s here)' % (what, sorted(
+                   '%s.%s' % (m.split('.')[-1], c) for m, c in owners), api)
+               if ok else
+               '%s is changed by %s outside its owners %s: the rules of '
+               'this property do not see that writer' % (
+                   what, api, sorted('%s.%s' % (m.split('.')[-1], c)
+                                     for m, c in owners)),
+               construct='%s %s' % (api, attr))
+    ctx.require(inside >= minimum, 'writers of %s inside the owners (found '
+                                   '%d)' % (attr, inside))
+
+
+_ZK_WRITES = ('create', 'put', 'set', 'delete', 'ensure_deleted',
+              'ensure_exists', 'update', 'set_data', 'create_ephemeral')
+
+
+def zk_path_writers(index, kinds):
+    """Whole-package list of (func, call, kind): ZooKeeper write calls one of
+    whose first arguments is (after copy propagation) a z.path.<kind>(...)
+    node."""
+    index.load_all()
+    out = []
+    needles = ['path.%s(' % k for k in kinds]
+    for mod in index.modules.values():
+        if '.tests' in mod.name or not any(n in mod.source for n in needles):
+            continue
+        for func in mod.live_functions():
+            for sub in walk_no_nested(func.node):
+                if not isinstance(sub, ast.Call):
+                    continue
+                name = callee_text(sub).split('.')[-1]
+                if name not in _ZK_WRITES:
+                    continue
+                texts = [rtxt(func, a) for a in sub.args[:3]]
+                for kind in kinds:
+                    if any('path.%s(' % kind in t for t in texts):
+                        out.append((func, sub, kind))
+                        break
+    return out
